@@ -45,6 +45,15 @@ pub struct PCase {
   /// the one log) instead of a by-value probe observer
   #[serde(default)]
   pub closure_subscriber: bool,
+  /// 2 = the closure idiom in the other layering,
+  /// `.on_complete(c).on_error(e).subscribe(n)` (overrides `closure_subscriber`)
+  #[serde(default)]
+  pub sub_style: u8,
+  /// k > 0: the subscriber has enough after k items without being terminated:
+  /// the by-value probe reports `is_finished()`; the closure idioms get a
+  /// `.take(k)` below the handlers
+  #[serde(default)]
+  pub finish_after: usize,
 }
 
 #[derive(Default, Debug)]
@@ -113,7 +122,7 @@ thread_local! {
 }
 
 pub fn valid(case: &PCase) -> bool {
-  case.n_hot >= 1 && case.n_hot <= 4 && case.root.valid(0) && case.root.size() <= 40 && case.acts.len() <= 120
+  case.n_hot >= 1 && case.n_hot <= 4 && case.sub_style <= 2 && case.finish_after <= 16 && case.root.valid(0) && case.root.size() <= 40 && case.acts.len() <= 120
 }
 
 pub fn run_pipeline(case: &PCase) -> Result<PRun, String> {
@@ -167,23 +176,28 @@ fn run_pipeline_inner(case: &PCase, mut pool: Option<&mut futures::executor::Loc
       None
     }
   };
-  let closures = case.closure_subscriber;
+  let style = if case.sub_style == 2 { 2 } else { case.closure_subscriber as u8 };
+  let fin = case.finish_after;
+  if style == 0 {
+    log.finish_after.store(fin, SeqCst);
+  }
   let subscribe = |p: Pending, log: &Arc<ProbeLog>| -> Result<Handle, String> {
     catch_unwind(AssertUnwindSafe(|| {
       let (l1, l2, l3) = (log.clone(), log.clone(), log.clone());
-      match (p, closures) {
-        (Pending::L(o), false) => Handle::L(o.actual_subscribe(Probe(log.clone()))),
-        (Pending::S(o), false) => Handle::S(o.actual_subscribe(Probe(log.clone()))),
-        (Pending::L(o), true) => Handle::L(BoxSubscription::new(
-          o.on_error(move |e: E| Observer::<Val, E>::error(Probe(l1), e))
-            .on_complete(move || Observer::<Val, E>::complete(Probe(l2)))
-            .subscribe(move |v: Val| Observer::<Val, E>::next(&mut Probe(l3.clone()), v)),
-        )),
-        (Pending::S(o), true) => Handle::S(BoxSubscriptionThreads::new(
-          o.on_error(move |e: E| Observer::<Val, E>::error(Probe(l1), e))
-            .on_complete(move || Observer::<Val, E>::complete(Probe(l2)))
-            .subscribe(move |v: Val| Observer::<Val, E>::next(&mut Probe(l3.clone()), v)),
-        )),
+      let on_e = move |e: E| Observer::<Val, E>::error(Probe(l1), e);
+      let on_c = move || Observer::<Val, E>::complete(Probe(l2));
+      let on_n = move |v: Val| Observer::<Val, E>::next(&mut Probe(l3.clone()), v);
+      match (p, style, fin) {
+        (Pending::L(o), 0, _) => Handle::L(o.actual_subscribe(Probe(log.clone()))),
+        (Pending::S(o), 0, _) => Handle::S(o.actual_subscribe(Probe(log.clone()))),
+        (Pending::L(o), 1, 0) => Handle::L(BoxSubscription::new(o.on_error(on_e).on_complete(on_c).subscribe(on_n))),
+        (Pending::S(o), 1, 0) => Handle::S(BoxSubscriptionThreads::new(o.on_error(on_e).on_complete(on_c).subscribe(on_n))),
+        (Pending::L(o), 1, k) => Handle::L(BoxSubscription::new(o.on_error(on_e).on_complete(on_c).take(k).subscribe(on_n))),
+        (Pending::S(o), 1, k) => Handle::S(BoxSubscriptionThreads::new(o.on_error(on_e).on_complete(on_c).take(k).subscribe(on_n))),
+        (Pending::L(o), _, 0) => Handle::L(BoxSubscription::new(o.on_complete(on_c).on_error(on_e).subscribe(on_n))),
+        (Pending::S(o), _, 0) => Handle::S(BoxSubscriptionThreads::new(o.on_complete(on_c).on_error(on_e).subscribe(on_n))),
+        (Pending::L(o), _, k) => Handle::L(BoxSubscription::new(o.on_complete(on_c).on_error(on_e).take(k).subscribe(on_n))),
+        (Pending::S(o), _, k) => Handle::S(BoxSubscriptionThreads::new(o.on_complete(on_c).on_error(on_e).take(k).subscribe(on_n))),
       }
     }))
     .map_err(|p| format!("while subscribing: {}", panic_message(&*p)))
